@@ -344,7 +344,8 @@ theorem collectBases_chain {key : String} {w : World} {done : List ChainLevel}
 theorem decorateOne_ok (w : World) (key : String) (f : FnId) (hv : Bool) (bPre bPosts : List Nat)
     (hw : bPre = [] → hv = false) (hne : ownPre w f ≠ []) (hs : ownSnaps w f = []) :
     decorateOne w key f true (hv, bPre, [], bPosts) =
-      .ok (installed w f (bPre ++ ownPre w f) [] (bPosts ++ ownPosts w f)) := by
+      .ok (installed (copyCells w bPre).1 f ((copyCells w bPre).2 ++ ownPre w f) []
+            (bPosts ++ ownPosts w f)) := by
   cases hck : w.checker? f with
   | none => simp only [ownPre, hck] at hne; exact absurd rfl hne
   | some ck =>
@@ -357,7 +358,8 @@ theorem decorateOne_ok (w : World) (key : String) (f : FnId) (hv : Bool) (bPre b
       cases bPre with
       | nil => simp [hw rfl]
       | cons _ _ => simp
-    have hemp : ((bPre ++ w.heap.get ck.pre).isEmpty && (bPosts ++ w.heap.get ck.posts).isEmpty) = false := by
+    have hemp : (((copyCells w bPre).2 ++ w.heap.get ck.pre).isEmpty &&
+        (bPosts ++ w.heap.get ck.posts).isEmpty) = false := by
       simp [List.isEmpty_iff, hne]
     simp only [decorateOne, hck, hs, Bool.not_true, Bool.false_eq_true, if_false, hweak, List.append_nil,
       firstDuplicate, firstDuplicate.go, hemp, installed, Heap.alloc_snd, Heap.length_alloc]
@@ -511,20 +513,32 @@ theorem chain_step (key : String) (hkey : key ≠ "__init__" ∧ key ≠ "__new_
   have hdec := decorateOne_ok (declW w l.f l.pre l.posts) key l.f hv bPre bPosts hw
     (by rw [oPre]; exact List.cons_ne_nil _ _) oSnaps
   rw [oPre, oPosts, ← hcb] at hdec
-  -- the world after the namespace pass
-  have hens := ensureChecker_some _ _ _ hck
-  have fr2 := installed_frame (declW w l.f l.pre l.posts) l.f (bPre ++ [w.heap.length + 3]) []
-    (bPosts ++ l.posts)
-  have hck2 := installed_checker (declW w l.f l.pre l.posts) l.f (bPre ++ [w.heap.length + 3]) []
-    (bPosts ++ l.posts)
-  have hheap2 := installed_heap (declW w l.f l.pre l.posts) l.f (bPre ++ [w.heap.length + 3]) []
-    (bPosts ++ l.posts)
-  have hlen2 := installed_length (declW w l.f l.pre l.posts) l.f (bPre ++ [w.heap.length + 3]) []
-    (bPosts ++ l.posts)
+  -- the world after the namespace pass: the base groups are copied, then three fresh lists
+  have hp01 := copyCells_hpres (declW w l.f l.pre l.posts) bPre
+  have hcp := copyCells_snd_mem (declW w l.f l.pre l.posts) bPre
+  have hcont := copyCells_contents (declW w l.f l.pre l.posts) bPre (by rw [hlen1]; exact hglt)
+  have hck1' : (copyCells (declW w l.f l.pre l.posts) bPre).1.checker? l.f = some _ :=
+    (copyCells_checker? _ _ _).trans hck
+  have hens := ensureChecker_some _ _ _ hck1'
+  have fr01 := (copyCells_frame (declW w l.f l.pre l.posts) bPre).mono (T := (· = l.f))
+    (fun _ hf => hf.elim)
+  have fr12 := installed_frame (copyCells (declW w l.f l.pre l.posts) bPre).1 l.f
+    ((copyCells (declW w l.f l.pre l.posts) bPre).2 ++ [w.heap.length + 3]) [] (bPosts ++ l.posts)
+  have hck2 := installed_checker (copyCells (declW w l.f l.pre l.posts) bPre).1 l.f
+    ((copyCells (declW w l.f l.pre l.posts) bPre).2 ++ [w.heap.length + 3]) [] (bPosts ++ l.posts)
+  have hheap2 := installed_heap (copyCells (declW w l.f l.pre l.posts) bPre).1 l.f
+    ((copyCells (declW w l.f l.pre l.posts) bPre).2 ++ [w.heap.length + 3]) [] (bPosts ++ l.posts)
+  have hlen2 := installed_length (copyCells (declW w l.f l.pre l.posts) bPre).1 l.f
+    ((copyCells (declW w l.f l.pre l.posts) bPre).2 ++ [w.heap.length + 3]) [] (bPosts ++ l.posts)
   rw [hens] at hck2 hheap2 hlen2
-  simp only [hlen1] at hck2 hheap2 hlen2
-  generalize installed (declW w l.f l.pre l.posts) l.f (bPre ++ [w.heap.length + 3]) []
-    (bPosts ++ l.posts) = w2 at hdec fr2 hck2 hheap2 hlen2
+  simp only [] at hck2 hheap2 hlen2
+  generalize installed (copyCells (declW w l.f l.pre l.posts) bPre).1 l.f
+    ((copyCells (declW w l.f l.pre l.posts) bPre).2 ++ [w.heap.length + 3]) []
+    (bPosts ++ l.posts) = w2 at hdec fr12 hck2 hheap2 hlen2
+  generalize hw1 : (copyCells (declW w l.f l.pre l.posts) bPre).1 = w1 at *
+  generalize hcps : (copyCells (declW w l.f l.pre l.posts) bPre).2 = cp at *
+  have fr2 := fr01.trans fr12
+  have hN1 : w.heap.length + 4 ≤ w1.heap.length := by rw [← hlen1]; exact hp01.2
   obtain ⟨i0, i1, i2⟩ := hheap2
   have hcls2 : ClassInv key w2 done := hcls1.of_classes fr2.classes
   have hmro := hcls2.computeMro_eq
@@ -553,7 +567,7 @@ theorem chain_step (key : String) (hkey : key ≠ "__init__" ∧ key ≠ "__new_
     · have hi' : i = done.length := by omega
       subst hi'
       have hl : (done ++ [l])[done.length] = l := by simp
-      refine ⟨{ pre := w.heap.length + 4, snaps := w.heap.length + 4 + 1, posts := w.heap.length + 4 + 2 },
+      refine ⟨{ pre := w1.heap.length, snaps := w1.heap.length + 1, posts := w1.heap.length + 2 },
         ?_, ?_⟩
       · show w2.checker? _ = some _
         rw [hl]; exact hck2
@@ -561,19 +575,19 @@ theorem chain_step (key : String) (hkey : key ≠ "__init__" ∧ key ≠ "__new_
         show CkOk w2.heap _ _
         have hg3 : w2.heap.get (w.heap.length + 3) = l.pre := by
           rw [fr2.heap.1 _ (by omega)]; exact g3
-        have b0 : w.heap.length + 4 < w2.heap.length := by omega
-        have b1 : w.heap.length + 4 + 1 < w2.heap.length := by omega
-        have b2 : w.heap.length + 4 + 2 < w2.heap.length := by omega
+        have b0 : w1.heap.length < w2.heap.length := by omega
+        have b1 : w1.heap.length + 1 < w2.heap.length := by omega
+        have b2 : w1.heap.length + 2 < w2.heap.length := by omega
         refine ⟨b0, b1, b2, ?_, ?_, i1, ?_⟩
         · intro g hg
           simp only [i0, List.mem_append, List.mem_singleton] at hg
           rcases hg with hg | hg
-          · have := hglt g hg; omega
+          · have := (hcp g hg).2; omega
           · omega
         · simp only [i0, List.map_append, List.map_cons, List.map_nil, hg3]
           congr 1
-          rw [← hmap]
-          exact List.map_congr_left (fun g hg => fr2.heap.1 g (by rw [hlen1]; exact hglt g hg))
+          rw [← hmap, ← hcont]
+          exact List.map_congr_left (fun g hg => fr12.heap.1 g (hcp g hg).2)
         · simp only [i2, hposts, List.flatMap_append, List.flatMap_cons, List.flatMap_nil, List.append_nil]
 
 /-- the generalised chain theorem: from any chain world, the remaining levels are accepted and the
